@@ -34,6 +34,7 @@ def run(ctx):
     c18_5(ctx)
     c18_6(ctx)
     c18_6b(ctx)
+    c18_7(ctx)
 
 
 # ------------------------------------------------------------------ C18.1
@@ -701,6 +702,48 @@ def c18_6b(ctx):
     boots = [bi for bi, nm, t in b.calls() if U.flat(nm) == BLOB + "::insert"]
     ok = bool(boots) and bool(edges) and all(any(b.dominates(e, x) for e in edges) for x in boots)
     ctx.ob(R, "bootstrap-under-leaf-count", ok, "the one-by-one bootstrap inserts run under the leaf-count test", where=fs[0].sp)
+
+
+def c18_7(ctx):
+    """content and reload: (a) get_keys_values reports, for every key of the cache, the `value` field of the leaf *decoded*
+    from that key's block (MerkleBlob::get_node -> expect_leaf); a raw read at a fixed offset is wrong whenever the variable-
+    length parent field is short (root leaf).  (b) BlockStatusCache::new -- run on every load -- marks as free exactly the
+    blocks the traversal from the root did not reach: one pass over the whole seen-bit vector, inserting index i iff bit i is
+    clear.  Deletes leave holes in the middle of the blob, so 'everything after the last used block' is not the free set."""
+    from .. import apnf
+    R = "C18.7"
+    fb = ctx.fb
+    b = U.body(ctx, R, BLOB + "::get_keys_values")
+    if b:
+        ins = [[str(apnf.N(b.operand_term(a))) for a in t["args"]] for bi, n_, t in b.calls() if U.flat(n_).endswith("HashMap::insert")]
+        it = "('BlockStatusCache::iter_keys_indexes', ('.block_status_cache', 'self'))"
+        ok = len(ins) == 1 and ins[0][1] == "('.0', ('next', ('into_iter', %s)))" % it and \
+            ins[0][2].startswith("('.value', ('Node::expect_leaf', ('MerkleBlob::get_node', 'self', ('.1', ('next', %s)))" % it)
+        ctx.ob(R, "get_keys_values:decoded-leaf", ok,
+               "get_keys_values maps each cached key to the value field of the leaf decoded from that key's index", found=ins[:1], where=b.fn.sp)
+        U.loop_no_skip(ctx, R, b, "get_keys_values:every-key", [bi for bi, n_, t in b.calls() if U.flat(n_).endswith("HashMap::insert")],
+                       "every key of the cache is reported")
+    b = U.body(ctx, R, CACHE + "::new")
+    if b:
+        ins = [(bi, [str(apnf.N(b.operand_term(a))) for a in t["args"]]) for bi, n_, t in b.calls() if U.flat(n_).endswith("IndexSet::insert")]
+        ok = len(ins) == 1
+        detail = None
+        if ok:
+            bi, a = ins[0]
+            bits = "('Iterator::enumerate', ('iter', ('BitVec::repeat', 0, ('Div', ('len', 'blob'), "
+            elem = "('next', ('into_iter', " + bits
+            ok = a[1].startswith("('TreeIndex::TreeIndex', ('as u32', ('.0', " + elem)
+            conds = [(str(apnf.N(c[0])), c[1]) for c in b.dominating_conditions(bi)]
+            clear = [c for c in conds if c[0].startswith("('not', ('.1', ('next', " + bits) and c[1] == ("bool", True)] + \
+                    [c for c in conds if c[0].startswith("('.1', ('next', " + bits) and c[1] == ("bool", False)]
+            ok = ok and len(clear) == 1
+            detail = [a[1][:160]] + [c[0][:120] for c in conds]
+        ctx.ob(R, "cache-new:free-set", ok,
+               "free indexes = { i in 0..block_count : bit i of the traversal's seen-vector is clear } (whole vector, no adaptor)",
+               found=detail, where=b.fn.sp)
+        sets = [[str(apnf.N(b.operand_term(a))) for a in t["args"]] for bi, n_, t in b.calls() if U.flat(n_).endswith("BitSlice::set")]
+        ok = len(sets) == 1 and "LeftChildFirstIterator::new', 'blob'" in sets[0][1] and sets[0][2] in ("1", "True", "true")
+        ctx.ob(R, "cache-new:seen-set", ok, "the seen bit of every block yielded by the traversal from the root is set", found=sets[:1])
 
 
 READ_ONLY_MUT = ("get_mut", "iter_mut", "as_mut")
